@@ -123,3 +123,36 @@ Theorem C03_refuted_in_tree_pin :
     spec_check v (candidates v q d) (spec_candidates v q d) = 5.
 Proof. exact c03_refuted_in_tree_pin. Qed.
 Print Assumptions C03_refuted_in_tree_pin.
+
+(* ---------------------------------------------------------------------------------------------------------------
+   From the query string.  decode_candidates (Model/DecodeQC.v) is the front half of list_allocation_candidates: the query
+   parameters as webob delivers them, validated as dict(req.GET) against the query schema of the version (regenerated),
+   RequestWideParams.from_request and RequestGroup.dict_from_request of placement/lib.py (suffix patterns by version,
+   groups in order of first appearance, required / member_of from all values of their key, resources / in_tree from the
+   last, the orphan / resourceless / same_subtree / conflict checks, the group_policy requirement), through the value
+   parsers of Model/Parse.v.  Tied to the code by calling the REAL handler on generated query strings and capturing the
+   groups and request-wide parameters it hands to the search (harness/decodeqc.py). *)
+From PV Require Import Model.Parse Model.DecodeQ Model.DecodeQC Proofs.C03q.
+
+Theorem C03_query_never_escapes : forall (tok_rp tok_agg tok_trait tok_rc tok_suffix : str -> Z) v kv,
+  decode_candidates tok_rp tok_agg tok_trait tok_rc tok_suffix v kv <> PEscape.
+Proof. exact c03q_never_escapes. Qed.
+Print Assumptions C03_query_never_escapes.
+
+(* the hypothesis query_wf of the candidate theorems (C02, C03, C20) is DERIVED: whatever the front half accepts at
+   version v satisfies every version gate and structural condition of query_wf - given tokenizers that are injective on
+   suffixes (with '' -> 0) and trait names *)
+Theorem C03_query_accepted_wf : forall (tok_rp tok_agg tok_trait tok_rc : str -> Z) (tok_suffix : list Z -> Z) v kv q,
+  0 <= v <= 39 -> tok_suffix [] = 0 ->
+  (forall a b, tok_suffix a = tok_suffix b -> a = b) -> (forall a b : str, tok_trait a = tok_trait b -> a = b) ->
+  decode_candidates tok_rp tok_agg tok_trait tok_rc tok_suffix v kv = POk q -> query_wf v q = true.
+Proof. exact c03q_accepted_wf. Qed.
+Print Assumptions C03_query_accepted_wf.
+
+(* ... and without injective tokenizers the statement is false (two unknown trait names with one token look like a
+   conflict): a fact about tokenizers, not about the code *)
+Theorem C03_query_wf_needs_injective_tokenizers :
+  ~ (forall (tok_rp tok_agg tok_trait tok_rc tok_suffix : str -> Z) v kv q, 0 <= v <= 39 ->
+       decode_candidates tok_rp tok_agg tok_trait tok_rc tok_suffix v kv = POk q -> query_wf v q = true).
+Proof. exact c03q_tokenizers_needed_refuted. Qed.
+Print Assumptions C03_query_wf_needs_injective_tokenizers.
